@@ -19,6 +19,8 @@ type C14Marker struct {
 	Line   int    `json:"line"`
 	Fn     string `json:"fn"`
 	Inline bool   `json:"inline,omitempty"` // the marker call sits in a function literal that is written and called on this very line
+	First  int    `json:"first,omitempty"`  // multi-line statements: the innermost statement containing the call spans First..Last
+	Last   int    `json:"last,omitempty"`
 	Dead bool   `json:"dead,omitempty"` // in code that can never execute
 }
 
@@ -108,7 +110,34 @@ func (b *c14b) markerStmt(file, fn, dvar string, indent int, dead bool) {
 	nextLine := len(*b.files[file]) + 1
 	id := b.marker(file, fn, nextLine, dead)
 	call := "mk.mark(" + itoa(id) + ", " + dvar + ")"
-	switch b.r.Intn(20) {
+	switch b.r.Intn(23) {
+	case 20, 21, 22:
+		// a statement spanning several lines: any line of it is "within the statement"
+		first := len(*b.files[file]) + 1
+		x := b.v()
+		switch b.r.Intn(3) {
+		case 0:
+			b.emit(file, fn, x+" := [1,", indent)
+			b.emit(file, fn, call+",", indent+1)
+			b.emit(file, fn, "3]", indent+1)
+		case 1:
+			b.emit(file, fn, x+" := func(p, q, r) { return q }(", indent)
+			b.emit(file, fn, "1,", indent+1)
+			b.emit(file, fn, call+",", indent+1)
+			b.emit(file, fn, "3)", indent+1)
+		default:
+			b.emit(file, fn, x+" := {", indent)
+			b.emit(file, fn, "a: 1,", indent+1)
+			b.emit(file, fn, "b: "+call+" +", indent+1)
+			b.emit(file, fn, "2}", indent+2)
+		}
+		m := b.meta.Markers[id]
+		m.Line = first + 1
+		if m.Line < first {
+			m.Line = first
+		}
+		m.First, m.Last = first, len(*b.files[file])
+		b.meta.Markers[id] = m
 	case 16:
 		b.emit(file, fn, "for "+b.v()+" := 0; "+"false"+"; {", indent)
 		b.emit(file, fn, "}", indent)
